@@ -316,6 +316,27 @@ fn c05(r: &Runner) {
                 }
             }
         });
+        // amounts far beyond the width, up to usize::MAX (amount arithmetic such as bit_len + s or s as u32 must not wrap)
+        {
+            let mut hs: Vec<usize> = vec![(1 << 16) + 3, (1 << 31) - 1, 1 << 31, (1 << 32) - 1, 1 << 32, (1 << 32) + 1, (1 << 32) + 5, (1 << 32) + bits / 2, 3 << 32, (1 << 40) + 63, (1 << 63) - 1, 1 << 63, (1 << 63) + 1, usize::MAX - 64 * nlimbs(bits), usize::MAX - bits, usize::MAX - bits / 2, usize::MAX - 64, usize::MAX - 1, usize::MAX];
+            for k in [1usize, 2, 63, 64, 65] {
+                hs.push(usize::MAX - bits.saturating_sub(k));
+                hs.push((1usize << 32) * k + bits.saturating_sub(1));
+            }
+            hs.sort();
+            hs.dedup();
+            let hv = if bits <= 6 { small_all(bits) } else { pow2_sparse(bits) };
+            r.universe(&format!("{} values x {} amounts far beyond the width, up to usize::MAX (methods)", hv.len(), hs.len()), bits, hv.len(), |i, l| {
+                let a = vu(&hv[i]);
+                for &s in &hs {
+                    let args = [a.clone(), V::n(s)];
+                    l.states(1);
+                    for &op in SH_METHODS {
+                        exec(l, bits, op, &args);
+                    }
+                }
+            });
+        }
         // operator overloads: value set = P(B) (every single-bit position and its neighbours) + extremes
         let pv = if bits <= 6 { small_all(bits) } else if 30 * bits * smax > per { pow2_sparse(bits) } else { pow2_nbhd(bits) };
         r.universe(&format!("{} values x 10 amount types x s in 0..={smax} (operators)", pv.len()), bits, pv.len(), |i, l| {
@@ -487,6 +508,15 @@ fn indexed(r: &Runner, bits: usize, vals: &[Limbs], d: &str) {
         }
         for idx in 0..=(bits + 7) / 8 + 8 {
             l.states(1);
+            exec(l, bits, Op::byte, &[a.clone(), V::n(idx)]);
+            exec(l, bits, Op::checked_byte, &[a.clone(), V::n(idx)]);
+        }
+        // indices far out of range (index arithmetic such as 8 * index must not wrap)
+        for idx in [1usize << 32, (1 << 58) - 1, 1 << 58, (1 << 61) - 1, 1 << 61, (1 << 61) + 1, 1 << 62, 1 << 63, (1 << 63) + 1, usize::MAX / 8, usize::MAX / 8 + 1, usize::MAX - 64, usize::MAX - 1, usize::MAX] {
+            l.states(1);
+            exec(l, bits, Op::bit, &[a.clone(), V::n(idx)]);
+            exec(l, bits, Op::set_bit, &[a.clone(), V::n(idx), V::B(true)]);
+            exec(l, bits, Op::set_bit, &[a.clone(), V::n(idx), V::B(false)]);
             exec(l, bits, Op::byte, &[a.clone(), V::n(idx)]);
             exec(l, bits, Op::checked_byte, &[a.clone(), V::n(idx)]);
         }
